@@ -25,66 +25,15 @@ func checkC02(c *Ctx) error {
 	if err != nil {
 		return fmt.Errorf("lemma of OutputText (spec-level, says nothing about the code): %v", err)
 	}
-	// 1b. the clean-up passes as an exact transcription: every text up to the bound is pushed through
-	//     the real passes (hook operators.VerifCleanup) and compared byte for byte with
-	//     Cleanup!Pipeline; an out-of-range access of the transcription must be a runtime panic of
-	//     the code and vice versa.  TLC also checks NoCrash and Hygiene on every text.
+	// 1b. the clean-up passes as an exact transcription (see cleanupConformance)
 	cleanLen := "4"
 	if c.Tier == "thorough" {
 		cleanLen = "6"
 	}
-	cpool, err := c.newInprocPool()
+	cl, err := cleanupConformance(c, cleanLen)
 	if err != nil {
 		return err
 	}
-	croot, _ := c.newSandbox("cleanroot")
-	type cleanCase struct {
-		T   string `json:"t"`
-		Out string `json:"out"`
-		WF  bool   `json:"wf"`
-	}
-	cch := make(chan cleanCase, 4096)
-	var cwg sync.WaitGroup
-	var cleanN, cleanBad int64
-	for w := 0; w < 8; w++ {
-		cwg.Add(1)
-		go func() {
-			defer cwg.Done()
-			wk := cpool.get()
-			defer cpool.put(wk)
-			for cc := range cch {
-				rep, err := wk.runMode(croot, cc.T, "cleanup")
-				if err != nil || rep.Died {
-					c.infra(fmt.Errorf("clean-up worker failed on %q: %v", cc.T, err))
-					continue
-				}
-				atomic.AddInt64(&cleanN, 1)
-				crashed := rep.Panic != ""
-				if crashed != (cc.Out == "CRASH") || (!crashed && rep.Out != cc.Out) {
-					if atomic.AddInt64(&cleanBad, 1) <= 10 {
-						c.violation("cleanup", map[string]any{"why": "the clean-up passes differ from their transcription (Cleanup!Pipeline)", "text": cc.T,
-							"spec": cc.Out, "real": rep.Out, "real_panic": rep.Panic, "balanced_input": cc.WF})
-					}
-				}
-			}
-		}()
-	}
-	cl, err := c.runTLC(TLCRun{Module: "MC_Cleanup", Seed: c.Seed, Timeout: 40 * time.Minute, Workers: 8,
-		Constants: map[string]string{"MaxLen": "= " + cleanLen, "Export": "= TRUE"}, Invs: []string{"NoCrash", "Hygiene", "ExportCase"}}, func(raw []byte) error {
-		var cc cleanCase
-		if err := mustJSON(raw, &cc); err != nil {
-			return err
-		}
-		cch <- cc
-		return nil
-	})
-	close(cch)
-	cwg.Wait()
-	cpool.close()
-	if err != nil {
-		return fmt.Errorf("model of the clean-up passes (spec-level): %v", err)
-	}
-	c.Cov["cleanup_texts_compared"] = cleanN
 	lem.Distinct += cl.Distinct
 	lem.Generated += cl.Generated
 	// 2. programs over the hygiene pool, compiled by the real code (language-checked as in C01)
@@ -197,4 +146,64 @@ func checkC02(c *Ctx) error {
 	c.Assumptions = append(c.Assumptions, "ModSecurity's SecRule reader ends a quoted operand at a double quote that is not preceded by a backslash")
 	c.Summary = fmt.Sprintf("lemma_states=%d programs=%d outputs=%d", lem.Distinct, rp.replayed, len(texts))
 	return nil
+}
+
+// cleanupConformance: the clean-up passes as an exact transcription.  Every text up to the bound is
+// pushed through the real passes (hook operators.VerifCleanup) and compared byte for byte with
+// Cleanup!Pipeline; an out-of-range access of the transcription must be a runtime panic of the
+// code and vice versa.  TLC also checks NoCrash, Hygiene and Terminates on every text.
+func cleanupConformance(c *Ctx, cleanLen string) (*TLCStats, error) {
+	cpool, err := c.newInprocPool()
+	if err != nil {
+		return nil, err
+	}
+	croot, _ := c.newSandbox("cleanroot")
+	type cleanCase struct {
+		T   string `json:"t"`
+		Out string `json:"out"`
+		WF  bool   `json:"wf"`
+	}
+	cch := make(chan cleanCase, 4096)
+	var cwg sync.WaitGroup
+	var cleanN, cleanBad int64
+	for w := 0; w < 8; w++ {
+		cwg.Add(1)
+		go func() {
+			defer cwg.Done()
+			wk := cpool.get()
+			defer cpool.put(wk)
+			for cc := range cch {
+				rep, err := wk.runMode(croot, cc.T, "cleanup")
+				if err != nil || rep.Died {
+					c.infra(fmt.Errorf("clean-up worker failed on %q: %v", cc.T, err))
+					continue
+				}
+				atomic.AddInt64(&cleanN, 1)
+				crashed := rep.Panic != ""
+				if crashed != (cc.Out == "CRASH") || (!crashed && rep.Out != cc.Out) {
+					if atomic.AddInt64(&cleanBad, 1) <= 10 {
+						c.violation("cleanup", map[string]any{"why": "the clean-up passes differ from their transcription (Cleanup!Pipeline)", "text": cc.T,
+							"spec": cc.Out, "real": rep.Out, "real_panic": rep.Panic, "balanced_input": cc.WF})
+					}
+				}
+			}
+		}()
+	}
+	cl, err := c.runTLC(TLCRun{Module: "MC_Cleanup", Seed: c.Seed, Timeout: 40 * time.Minute, Workers: 8,
+		Constants: map[string]string{"MaxLen": "= " + cleanLen, "Export": "= TRUE"}, Invs: []string{"NoCrash", "Hygiene", "Terminates", "ExportCase"}}, func(raw []byte) error {
+		var cc cleanCase
+		if err := mustJSON(raw, &cc); err != nil {
+			return err
+		}
+		cch <- cc
+		return nil
+	})
+	close(cch)
+	cwg.Wait()
+	cpool.close()
+	if err != nil {
+		return nil, fmt.Errorf("model of the clean-up passes (spec-level): %v", err)
+	}
+	c.Cov["cleanup_texts_compared"] = cleanN
+	return cl, nil
 }
